@@ -65,6 +65,63 @@ theorem confirm_ledgerInv_cstored_dec {l : L} (I : LedgerInv l) (CS : CStored l)
     intro a ha hab sa t ht hta
     exact hfresh t ht (mem_branchTxs I.tree hp hab sa hta)
 
+theorem confirm_fail_fst (l : L) (id pre : Nat) (txs : List (Nat × Bool)) (h : (confirm l id pre txs).2 = .fail) :
+    (confirm l id pre txs).1 = l := by
+  rcases confirm_cases' l id pre txs with e | ⟨pb, _, _, h'⟩
+  · rw [e]
+  · rcases h' with ⟨_, _, _, e⟩ | ⟨_, _, _, _, _, _, _, e⟩ | ⟨_, _, _, _, e⟩ <;> rw [e] at h <;> cases h
+
+/-- every operation of the history attaches a block that repeats no transaction of its own branch -/
+def OpsOk : L → List (Nat × Nat × List (Nat × Bool)) → Prop
+  | _, [] => True
+  | l, op :: rest =>
+    (∀ t, t ∈ op.2.2.map (·.1) → t ∉ branchTxs l op.2.1) ∧ OpsOk (confirm l op.1 op.2.1 op.2.2).1 rest
+
+instance OpsOk.dec : (l : L) → (ops : List (Nat × Nat × List (Nat × Bool))) → Decidable (OpsOk l ops)
+  | _, [] => isTrue trivial
+  | l, op :: rest =>
+    have := OpsOk.dec (confirm l op.1 op.2.1 op.2.2).1 rest
+    inferInstanceAs (Decidable ((∀ t, t ∈ op.2.2.map (·.1) → t ∉ branchTxs l op.2.1) ∧
+      OpsOk (confirm l op.1 op.2.1 op.2.2).1 rest))
+
+theorem runOps_fst (s : L × List Nat) (ops : List (Nat × Nat × List (Nat × Bool))) (I : LedgerInv s.1) (CS : CStored s.1)
+    (ok : OpsOk s.1 ops) : LedgerInv (runOps s ops).1 ∧ CStored (runOps s ops).1 := by
+  induction ops generalizing s with
+  | nil => exact ⟨I, CS⟩
+  | cons op rest ih =>
+    unfold runOps
+    obtain ⟨ok1, ok2⟩ := ok
+    obtain ⟨I', CS'⟩ := confirm_ledgerInv_cstored_dec I CS op.1 op.2.1 op.2.2 ok1
+    by_cases hf : (confirm s.1 op.1 op.2.1 op.2.2).2 = .fail
+    · rw [if_pos hf]
+      rw [confirm_fail_fst _ _ _ _ hf] at ok2
+      exact ih s I CS ok2
+    · rw [if_neg hf]
+      exact ih _ I' CS' ok2
+
+namespace LedgerInv
+variable {l : L}
+
+/-- (e) in closed form: the `next` link of a path block is the height-index entry one higher (none for the tip);
+off-path blocks have none -/
+theorem next_eq (I : LedgerInv l) {b : Nat} {h : Hdr} (hb : lookup l.B b = some h) :
+    (OnPath l b → h.next = lookup l.ZH (h.height + 1)) ∧ (¬ OnPath l b → h.next = none) := by
+  refine ⟨fun hp => ?_, fun hp => I.next_none b h hb (Or.inr hp)⟩
+  by_cases ht : b = l.tip
+  · rw [I.next_none b h hb (Or.inl ht)]
+    obtain ⟨th, hts, e⟩ := I.tip
+    rw [← ht, hb] at hts; cases hts
+    exact (I.zh_none_above (by omega)).symm
+  · obtain ⟨c, hc1, hc2⟩ := anc_child hp ht
+    rw [I.next_path b h c hb hc1 hc2]
+    obtain ⟨cb, _, sc, _, sb', hh⟩ := I.tree.par_stored hc2
+    rw [hb] at sb'; cases sb'
+    have := I.zh_complete c cb sc hc1
+    rw [hh] at this
+    exact this.symm
+
+end LedgerInv
+
 /-- item (h) in its strongest form: every transaction of a stored block is mapped by the confirmed table to a stored
 block that contains it -/
 def HFull (l : L) : Prop :=
